@@ -485,12 +485,7 @@ class VariantData {
 
   template <typename TAdaptedString>
   static void setString(VariantData* var, TAdaptedString value,
-                        ResourceManager* resources) {
-    if (!var)
-      return;
-    var->clear(resources);
-    var->setString(value, resources);
-  }
+                        ResourceManager* resources);
 
   void setLinkedString(const char* s) {
     ARDUINOJSON_ASSERT(type_ == VariantType::Null);  // must call clear() first
